@@ -24,7 +24,8 @@ var constellationNames = map[int]string{1: "GPS", 2: "Glonass", 3: "Galileo", 4:
 
 // case: ranges <k7 0|1> <W> <F> <range delta> <phase delta> <rough rate> <fine rate> <constellation code> <signal id>
 // obs:  <agg range hex> <agg phase hex> <agg rate hex> <range bits> <phase bits> <rate bits> <doppler bits> <wavelength bits>
-//       <markers: i=range invalid marker shown, n=no wavelength marker shown, -=none>
+//
+//	<markers: i=range invalid marker shown, n=no wavelength marker shown, -=none>
 func runRanges(f []string, out *bufio.Writer) {
 	k7 := f[1] == "1"
 	W, F := uint(atoi(f[2])), uint(atoi(f[3]))
